@@ -33,6 +33,10 @@ def check(ctx):
     spsc.rule_parked_visible_to_collector(ctx, facts, "R5")
     # a finish / cancel signal that is lost leaves its trace's entry in active_collectors for good
     from .. import spanrules
-    spanrules.rule_signals_forced(ctx, facts, "R6")
+    other = spanrules.rule_signals_forced(ctx, facts, "R6")
+    # ... and a StartCollect that could be parked arrives after its trace's commit has been forgotten: its late insert is never
+    # removed (the start must stay on the droppable path, where it is either read in order or lost)
+    from .. import scopes
+    scopes.rule_start_droppable(ctx, facts, "R7", other or {})
     spsc.rule_force_send_keeps(ctx, facts, "R6")
     spsc.rule_replay_keeps(ctx, facts, "R6")
